@@ -36,6 +36,24 @@ def meta(tier):
                 budget_s=420 if q else 1500, unit_budget_s=90 if q else 900)
 
 
+def _no_group_commas(toks):
+    """token list without the optional ',' in front of a /group-name/ of a NAMELIST statement"""
+    out = []
+    first = None
+    n = len(toks)
+    for k in range(n):
+        kind, t = toks[k]
+        if kind == "n":
+            first = None
+        elif first is None and kind == "w":
+            first = t.lower() if api.is_concrete(t) else ""
+        if (first == "namelist" and kind == "p" and t == "," and k + 3 < n and toks[k + 1] == ("p", "/")
+                and toks[k + 2][0] == "w" and toks[k + 3] == ("p", "/")):
+            continue
+        out.append((kind, t))
+    return out
+
+
 def tok_prog(ctx):
     p = ctx.p
     C.reset()
@@ -52,6 +70,11 @@ def tok_prog(ctx):
                 for w in plain:
                     if len(w) == len(vals[t]) and w not in [d.lower() for d in defaults]:
                         G.require(ctx, vals[t].lower() != w)
+            elif t[0] == "o":
+                # ... and the letters of a defined operator must not spell one of the program's names
+                for d in defaults:
+                    if len(d) == len(vals[t]):
+                        G.require(ctx, vals[t].lower() != d.lower())
     ctx.observe("src", src)
     r = C.outcome(lambda: C.parse(src, p["std"], p["ic"]))
     ctx.observe("outcome", r[0])
@@ -62,7 +85,12 @@ def tok_prog(ctx):
     ctx.observe("s1", s1)
     a = LX.normalise(LX.tokens(src))
     b = LX.normalise(LX.tokens(s1))
-    ctx.check(len(a) == len(b), "printed source has %s tokens than the program" % ("more" if len(b) > len(a) else "fewer"))
+    if len(a) != len(b) and len(_no_group_commas(a)) == len(_no_group_commas(b)):
+        # recorded finding: NAMELIST /g1/ a /g2/ b is printed with the optional comma in front of /g2/
+        ctx.check(False, "printed source has more tokens than the program [optional comma added between NAMELIST groups]")
+        a, b = _no_group_commas(a), _no_group_commas(b)
+    else:
+        ctx.check(len(a) == len(b), "printed source has %s tokens than the program" % ("more" if len(b) > len(a) else "fewer"))
     if len(a) == len(b):
         names = [vals[t] if t in vals else T.DEFAULTS[t] for t in G.used_holes(p["prog"]) if t[0] == "n"]
         ctx.check(LX.same_tokens(a, b, names), "printed tokens differ from the program's tokens")
